@@ -194,7 +194,6 @@ def _malformed_plain(rng) -> bytes:
         b64(b'user1\0pass1'),          # one NUL
         b64(b'\0user1\0pass1\0x'),     # three NULs
         b64(b'\0user1\xff\0pass1'),    # not UTF-8
-        b'=' + good,
     ])
 
 
@@ -245,12 +244,14 @@ def _quoted(s: str) -> bytes:
 def login_command(cr: dict, rng) -> bytes:
     k = cr['k']
     if k == 'oversized':
+        if rng.random() < 0.5:
+            return b'LOGIN user1 {%d+}\r\n%s' % (OVERSIZE, b'p' * OVERSIZE)
         return b'LOGIN user1 "' + b'p' * OVERSIZE + b'"'
     z, c, p = _plain_fields(cr, rng)
     style = rng.randrange(3)
     if style == 0 or not c or not p:
         return b'LOGIN ' + _quoted(c) + b' ' + _quoted(p)
-    if style == 1:
+    if style == 1 and c.isalnum() and p.isalnum():
         return b'LOGIN %s %s' % (c.encode(), p.encode())
     return b'LOGIN {%d+}\r\n%s {%d+}\r\n%s' % (len(c), c.encode(), len(p), p.encode())
 
@@ -886,10 +887,10 @@ class Planner:
         self.nav: dict = {}
         for core, d in model.core_out.items():
             best: dict = {}
-            for label, dsts in d.items():
+            for label, dsts in sorted(d.items()):
                 for dc in dsts:
                     if dc != core and dict(dc)['closed'] != 'True':
-                        best.setdefault(dc, label)
+                        best.setdefault(dc, []).append(label)
             self.nav[core] = best
 
     def left(self) -> int:
@@ -919,9 +920,9 @@ class Planner:
                     c = p
                 path.reverse()
                 return path
-            for dc, label in self.nav.get(c, {}).items():
-                if dc not in prev:
-                    prev[dc] = (c, label)
+            for dc, labels in self.nav.get(c, {}).items():
+                if dc not in prev and labels:
+                    prev[dc] = (c, labels[0])
                     dq.append(dc)
         return None
 
@@ -941,9 +942,19 @@ class Planner:
         if s is not None:
             s.discard(label)
 
-    def best_init(self) -> str | None:
+    def not_followed(self, core, label, reached) -> None:
+        """A navigation step did not end where the plan wanted (the server
+        resolved the model's nondeterminism differently): do not plan with
+        that edge again."""
+        for dc, labels in self.nav.get(core, {}).items():
+            if dc != reached and label in labels:
+                labels.remove(label)
+
+    def best_init(self, skip=()) -> str | None:
         best = None
         for n in self.m.inits:
+            if n in skip:
+                continue
             path = self.route(self.m.core_of[n])
             if path is not None and (best is None or len(path) < best[0]):
                 best = (len(path), n)
@@ -1060,7 +1071,9 @@ class SieveDriver:
                 return b'{%d+}\r\n%s' % (len(x), x)
             return b'"' + x + b'"'
         if form == 'PLAINIR':
-            return self._dialog(b'AUTHENTICATE "PLAIN" ' + q(plain_response(cr, self.rng)), [])
+            # (always a quoted string: pymap does not take a literal as the
+            # initial response but answers with an empty challenge)
+            return self._dialog(b'AUTHENTICATE "PLAIN" "' + plain_response(cr, self.rng) + b'"', [])
         if form == 'PLAIN':
             resp = plain_response(cr, self.rng)
             line = resp if cr['k'] == 'cmdline' else q(resp)
@@ -1278,8 +1291,9 @@ def tour(ex: Exec, max_len: int, deadline: float, protocol: bool = True,
     total = pl.left()
     paths = 0
     nav_steps = 0
+    skip_inits: set = set()
     while pl.left() and time.time() < deadline:
-        init = pl.best_init()
+        init = pl.best_init(skip_inits)
         if init is None:
             break
         env = env_of_init(model, init)[0]
@@ -1290,6 +1304,7 @@ def tour(ex: Exec, max_len: int, deadline: float, protocol: bool = True,
             break
         # (if the server started in another initial state of the model than
         # the one aimed at, the plan simply continues from there)
+        covered = 0
         while len(t.labels) < max_len and not model.is_closed(t.cur):
             core = model.core_of[t.cur]
             label, cover = pl.choose(core)
@@ -1297,11 +1312,19 @@ def tour(ex: Exec, max_len: int, deadline: float, protocol: bool = True,
                 break
             v = t.step(label, protocol=protocol and cover)
             pl.done(core, label)
-            if not cover:
+            if cover:
+                covered += 1
+            else:
                 nav_steps += 1
+                if v == 'ok':
+                    pl.not_followed(core, label, model.core_of[t.cur])
             if v != 'ok':
                 break
         ex.finish(t)
+        if not covered:
+            # this initial state of the model is one the server does not start
+            # in (the model leaves open whether local peers are trusted)
+            skip_inits.add(init)
     return {'pairs': total, 'uncovered': pl.left(), 'paths': paths,
             'navigation_steps': nav_steps}
 
@@ -1348,7 +1371,7 @@ def biased_walk(ex: Exec, env: str, rng, length: int, protocol: bool = True,
 
 def load_model(run, cfg: str):
     try:
-        graph, res = tlc.dump_graph('Conn.tla', cfg, workers=8)
+        graph, res = tlc.dump_graph('Conn.tla', cfg, workers=4)
     except tlc.TLCError as exc:
         run.machinery(str(exc))
         return None
